@@ -3,6 +3,7 @@
   Statements are FIXED: prove them exactly as stated (helper lemmas go above them or in Cgp/Proofs/C15.lean).
 -/
 import Cgp.Upgradable
+import Cgp.Toy
 namespace Cgp.Props.C15
 open Cgp Cgp.Xdr Cgp.Upgradable
 
@@ -383,5 +384,81 @@ theorem changes_need_owner (codes : Codes) (c : Contract) (op : Op) (h : (step c
     split at h
     · rename_i c' ht; exact (transfer_ok ht).1
     · exact absurd rfl h
+
+/-! ### non-vacuity (the model RUN in the kernel on a concrete history) -/
+section NonVacuity
+open Cgp.Toy
+
+/-- derived code reporting version `v`; its `migrate` takes no data -/
+def derived (v : Bytes) : Code :=
+  { version := v, hasMigrate := true, usesWindow := true, accepts := fun d => d.isEmpty, store := fun _ => none, opensWindow := true }
+def v1 : Bytes := [49]
+def v2 : Bytes := [50]
+def v3 : Bytes := [51]
+def h2 : Bytes := List.replicate 32 2
+def h3 : Bytes := List.replicate 32 3
+/-- the ledger's code table: two uploaded wasm hashes -/
+def codes0 : Codes := fun h => if h = h2 then some (derived v2) else if h = h3 then some (derived v3) else none
+def stranger : Addr := ⟨false, List.replicate 32 12⟩
+def c0 : Contract := { owner := owner0, code := derived v1, migrating := false, data := some [7] }
+def opsU : List Op :=
+  [ .migrate [owner0] [],                                  -- no upgrade before: refused
+    .upgrade [stranger] h2,                                -- not the owner: refused
+    .upgrade [owner0] [99],                                -- no such code: refused
+    .upgrade [owner0] h2,                                  -- version 2 installed, window open
+    .migrate [stranger] [],                                -- not the owner: refused
+    .migrate [owner0] [],                                  -- runs, closes the window
+    .migrate [owner0] [],                                  -- second migration for the same upgrade: refused
+    .viaUpgrader [owner0] [owner0] v2 h3 [],               -- Upgrader asked for the current version: refused
+    .viaUpgrader [owner0] [owner0] [57] h3 [],             -- Upgrader asked for a version the new code does not report: refused
+    .viaUpgrader [owner0] [] v3 h3 [],                     -- nested migrate not authorised: refused, the upgrade is rolled back too
+    .viaUpgrader [owner0] [owner0] v3 h3 [],               -- upgrade + migrate in one call: version 3, window closed
+    .upgrade [owner0] h2 ]                                 -- a further upgrade, not yet migrated: window open
+def errOf : Obs → Option Err | .err e => some e | _ => none
+def nEvents : Obs → Nat | .ok evs => evs.length | .err _ => 0
+/-- the decidable part of a contract -/
+def view (c : Contract) : Addr × Bytes × Bool × Option Bytes := (c.owner, c.code.version, c.migrating, c.data)
+
+theorem derived_isDerived (v : Bytes) : IsDerived (derived v) := ⟨rfl, rfl, rfl⟩
+
+theorem allDerived_c0 : AllDerived codes0 c0 := by
+  refine ⟨derived_isDerived _, ?_⟩
+  intro h code hc
+  simp only [codes0] at hc
+  split at hc
+  · injection hc with hc; subst hc; exact derived_isDerived _
+  · split at hc
+    · injection hc with hc; subst hc; exact derived_isDerived _
+    · cases hc
+
+/-- the hypotheses of `no_double_migrate` are satisfiable and its bound is attained: from a contract with the window closed and
+    only derived code around, a migration without upgrade is refused, an upgrade by the owner succeeds, its migration runs once,
+    the second migration is refused; Upgrader calls for the current version, for a version the new code does not report, and
+    without the owner's authorisation of the nested migrate are refused and leave owner, version, window and data as they were
+    (`upgrader_atomic`, second alternative); a correct Upgrader call ends at the new version with the window closed (first
+    alternative); after one more upgrade: 1 migration + 1 open window = 2 upgrades. -/
+theorem upgrade_history_nonvacuous :
+    AllDerived codes0 c0 ∧ c0.migrating = false ∧
+    (run codes0 c0 opsU).2.map errOf =
+      [some .migrationNotAllowed, some .unauthorized, some .noSuchCode, none, some .unauthorized, none,
+       some .migrationNotAllowed, some .sameVersion, some .unexpectedNewVersion, some .unauthorized, none, none] ∧
+    (run codes0 c0 opsU).2.map nEvents = [0, 0, 0, 0, 0, 1, 0, 0, 0, 0, 1, 0] ∧
+    migrations opsU (run codes0 c0 opsU).2 = 1 ∧ upgrades opsU (run codes0 c0 opsU).2 = 2 ∧
+    (run codes0 c0 opsU).1.migrating = true ∧
+    migrations (opsU.take 7) (run codes0 c0 (opsU.take 7)).2 = 1 ∧ upgrades (opsU.take 7) (run codes0 c0 (opsU.take 7)).2 = 1 ∧
+    [0, 3, 4, 6, 7, 8, 9, 10, 11, 12].map (fun n => view (run codes0 c0 (opsU.take n)).1) =
+      [(owner0, v1, false, some [7]), (owner0, v1, false, some [7]), (owner0, v2, true, some [7]), (owner0, v2, false, some [7]),
+       (owner0, v2, false, some [7]), (owner0, v2, false, some [7]), (owner0, v2, false, some [7]), (owner0, v2, false, some [7]),
+       (owner0, v3, false, some [7]), (owner0, v2, true, some [7])] ∧
+    -- `migrate_iff` / `migrate_closes_window`: data accepted, owner's authorisation, window open
+    (run codes0 c0 (opsU.take 5)).1.code.accepts [] = true ∧
+    (∃ c' evs, migrate (run codes0 c0 (opsU.take 5)).1 [owner0] [] = .ok (c', evs)) ∧
+    -- `upgrade_effect`, `upgrader_success`
+    (∃ c', upgrade codes0 c0 [owner0] h2 = .ok c') ∧
+    (∃ c' evs, upgraderUpgrade codes0 (run codes0 c0 (opsU.take 10)).1 [owner0] [owner0] v3 h3 [] = .ok (c', evs)) := by
+  refine ⟨allDerived_c0, ?_, ?_, ?_, ?_, ?_, ?_, ?_, ?_, ?_, ?_, exists_ok_pair_of_isOk _ (by decide +kernel),
+    exists_ok_of_isOk _ (by decide +kernel), exists_ok_pair_of_isOk _ (by decide +kernel)⟩ <;> decide +kernel
+
+end NonVacuity
 
 end Cgp.Props.C15
